@@ -281,7 +281,9 @@ void op_reload(const Step& s) {
 		VATA::Parsing::TimbukParser parser; VATA::AutBase::StateDict dict; VATA::ExplicitFiniteAut a; std::set<std::string> now;
 		api_begin(); api_site(site + ":GetStartStates");
 		a.LoadFromString(parser, b.bytes, dict);
-		for (const auto& q : a.GetStartStates()) now.insert(dict.TranslateBwd(q));
+		// (the text was dumped without a dictionary: its names are the state numbers, possibly decorated; compare the numbers)
+		auto bare = [](std::string n) { size_t k = 0; while (k < n.size() && !(n[k] >= '0' && n[k] <= '9')) ++k; return k < n.size() ? n.substr(k) : n; };
+		for (const auto& q : a.GetStartStates()) now.insert(bare(dict.TranslateBwd(q)));
 		api_end(); count(c_oracle_evals);
 		if (now != b.api_starts) { std::string x, y; for (auto& q : b.api_starts) x += " " + q; for (auto& q : now) y += " " + q; c13_violation("C13.reload-of-completed-dump", site, "the dumped automaton had the start states {" + x + " }, the reloaded one has {" + y + " }\n  text: " + b.bytes); }
 	}
